@@ -55,6 +55,16 @@ AcceptSpeed(p, t, s2) ==
                 ELSE IF s2[i][1] = 0 THEN "speed_NaN_on_positive_duration"
                 ELSE IF i = 1 \/ i = Len(p) THEN "end_speed_differs_from_one_sided_difference"
                 ELSE "speed_differs_from_centred_difference"
+\* Timestamps are floating-point seconds since 1970: for a present-day date a gap of one millisecond is known to the clock
+\* only to about 2e-4 of itself, so on millisecond-scale tracks recorded with such dates only the PATTERN is judged:
+\* NaN exactly where the elapsed time is zero, a number everywhere else.
+AcceptSpeedPattern(p, t, s2) ==
+   IF Len(s2) # Len(p) THEN "speed_column_length"
+   ELSE LET want == Speed2Def(p, t)
+            bad == {i \in DOMAIN p : (s2[i][1] = 0) # (want[i] = SNaN)}
+        IN IF bad = {} THEN "ok"
+           ELSE LET i == CHOOSE i \in bad : \A k \in bad : i <= k IN
+                IF want[i] = SNaN THEN "speed_not_NaN_on_zero_duration" ELSE "speed_NaN_on_positive_duration"
 
 (* ---- design check ---------------------------------------------------------------------- *)
 LegSeq == << <<0, 0>>, <<1, 0>>, <<3, 4>>, <<0, -1>>, <<-4, 3>>, <<1000, 0>>, <<0, 2>>, <<-6, -8>> >>
